@@ -527,10 +527,11 @@ class MolGraph:
         :param atoms: Iterable of atom ids to be
         :return: Subgraph
         """
+        atoms = tuple(atoms)
         new_atoms = set(atoms)
-        atom_attrs = {atom: self._atom_attrs[atom] for atom in atoms}
+        atom_attrs = {atom: deepcopy(self._atom_attrs[atom]) for atom in atoms}
         bond_attrs = {
-            bond: attrs
+            bond: deepcopy(attrs)
             for bond, attrs in self._bond_attrs.items()
             if new_atoms.issuperset(bond)
         }
